@@ -570,7 +570,7 @@ def run_one(rng, tier, res, opts):
     M = Machine(res, log)
     M.trace_file = opts.get('_trace_file')
     try:
-        with seams.Storage(M.fs):
+        with seams.Storage(M.fs, M.root):
             for k in range(length):
                 st = gen_step(rng, M, str(k), opts)
                 M.step(st)
@@ -608,7 +608,7 @@ def replay(desc, opts):
     log = core.EventLog()
     M = Machine(res, log)
     try:
-        with seams.Storage(M.fs):
+        with seams.Storage(M.fs, M.root):
             for st in desc['trace']:
                 M.step(dict(st))
     finally:
